@@ -14,6 +14,7 @@ Functions:
 from __future__ import annotations
 
 import multiprocessing
+import os
 import pickle
 import sys
 from dataclasses import dataclass
@@ -40,8 +41,13 @@ def _pickle_load(file: Path) -> Any:
 
 
 def _pickle_save(file: Path, data: Any) -> None:
-    with file.open("wb") as fp:
+    # Write to a sibling file and move it into place atomically, such that a run
+    # which is interrupted while writing never leaves a partial file under the
+    # name that `_load_or_run` takes as "result available".
+    tmp = file.with_name(f"{file.name}.{os.getpid()}.tmp")
+    with tmp.open("wb") as fp:
         pickle.dump(data, fp)
+    tmp.replace(file)
 
 
 @dataclass
@@ -84,7 +90,11 @@ def _load_or_run[K: Hashable, Tin, Tout](
     else:
         file = cache.tmp_dir / cache.name_fn(k)
         if file.exists():
-            return k, cast(Tout, cache.load_fn(file))
+            try:
+                return k, cast(Tout, cache.load_fn(file))
+            except (EOFError, pickle.UnpicklingError):
+                # Incomplete file left behind by an interrupted run: recompute
+                pass
         res = fn(v)
         cache.save_fn(file, res)
     return k, res
